@@ -38,6 +38,7 @@ func VfC05_OneDirection() {
 	p.pipeConn(ws, wd)
 	// what arrived is a prefix of what was sent, complete unless a write failed
 	nd.Assert(len(dst.written) <= len(sent) && vfBytesEq(dst.written, sent[:len(dst.written)]), "the destination receives the source's bytes, unmodified and in order")
+	nd.Assert(vfCount(log, "WTIMEOUT:dst") == 0, "a slow receiver is waited for: no write deadline is in force when no write time-out is configured")
 	wfailed := dst.failAt >= 0 && dst.nwrites > dst.failAt
 	if !wfailed {
 		nd.Assert(len(dst.written) == len(sent), "without a write failure every byte read is delivered")
@@ -53,12 +54,45 @@ func VfC05_OneDirection() {
 		nd.Assert(vfIndex(log, "EOF:src") >= 0 && cw > vfIndex(log, "EOF:src"), "end of stream is signalled only after the source's end was seen")
 	}
 	nd.Assert(!src.pastDeadline, "the idle deadline of a source that keeps sending lies in the future whenever it is armed (time spent writing to a slow receiver is not idleness of the sender)")
-	// idle timeout: a read deadline is set before every read of the source
-	for i, e := range log {
-		if e == "R:src" || e == "EOF:src" {
-			nd.Assert(i > 0 && log[i-1] == "RD:src", "the read deadline is refreshed before every read")
-		}
+}
+
+// VfC05_IdlePacing: a sender that pauses between its chunks - each pause shorter than the idle
+// time-out, their sum possibly much longer - is not idle: every byte is relayed and the stream
+// ends with the sender's own end of stream. The connection double honours read deadlines the way
+// a socket does: bytes that arrive after the deadline in force find the read already given up.
+func VfC05_IdlePacing() {
+	nd.ConcreteClock(true)
+	bufSize = 4
+	var log []string
+	src := &vfConn{name: "src", failAt: -1, slowWriteAt: -1, log: &log}
+	dst := &vfConn{name: "dst", failAt: -1, slowWriteAt: -1, log: &log}
+	n := nd.Param("reads", 3)
+	// every look at the executor's concrete clock lets one unit pass: pauses and time-out are
+	// scaled so that this does not matter (natively a unit is 10 ms and nothing is added)
+	scale := 1
+	if nd.Symbolic() {
+		scale = 100
 	}
+	var sent []byte
+	for i := 0; i < n; i++ {
+		b := nd.Bytes("data", []int{2, bufSize}[nd.Concrete(nd.Choice("chunk-fills-the-buffer", 2))])
+		src.reads = append(src.reads, b)
+		sent = append(sent, b...)
+		src.gaps = append(src.gaps, scale*[]int{0, 4, 8}[nd.Concrete(nd.Choice("pause", 3))]) // idle time-out: 10*scale units
+	}
+	src.gaps = append(src.gaps, scale*[]int{0, 8}[nd.Concrete(nd.Choice("pause-before-eof", 2))])
+	p := vfNewTCPProc(0)
+	idle := time.Duration(10*scale) * nd.Unit()
+	p.cfg.IdleTimeout = &idle
+	nd.PanicLabel("relay")
+	ws, wd := netutil.New(src), netutil.New(dst)
+	ws.SetReadTimeout(*p.cfg.IdleTimeout) // as HandleConn / dial do
+	wd.SetReadTimeout(*p.cfg.IdleTimeout)
+	p.pipeConn(ws, wd)
+	nd.Assert(vfCount(log, "TIMEOUT:src") == 0, "a sender that never pauses for as long as the idle time-out is not timed out")
+	nd.Assert(len(dst.written) == len(sent) && vfBytesEq(dst.written, sent), "every byte of a sender that pauses between chunks is delivered")
+	nd.Assert(vfIndex(log, "EOF:src") >= 0 && vfIndex(log, "CW:dst") > vfIndex(log, "EOF:src"), "end of stream is signalled only after the source's end was seen")
+	nd.Cover("paced")
 }
 
 // VfC05_BufferReuse: two relays that share a pooled buffer (sync.Pool may return a buffer that was
@@ -116,8 +150,16 @@ func VfC05_BothDirections() {
 		nd.Assert(!returned, "one finished direction does not end the relay")
 		nd.Assert(vfCount(log, "CW:backend") == 1, "the backend sees end-of-stream from the client (half-close)")
 		nd.Assert(vfCount(log, "C:client") == 0 && vfCount(log, "C:backend") == 0, "the opposite direction is left open")
-		backend.reads = append(backend.reads, []byte("tail"))
-		backend.pos = len(backend.reads) - 1
+		// the backend goes on sending for longer than the idle time-out in total, never pausing
+		// for that long: all of it reaches the client, who only stopped sending
+		for i := 0; i < 2; i++ {
+			nd.AdvanceClock(8) // idle time-out: 10 units
+			backend.reads = append(backend.reads, []byte("tail"))
+			backend.pos = len(backend.reads) - 1
+			backend.kick()
+			nd.Quiesce()
+		}
+		nd.Assert(vfCount(log, "WTIMEOUT:client") == 0 && vfBytesEq(client.written, append(append([]byte{}, b2c...), "tailtail"...)), "data in the opposite direction keeps flowing after one side finished sending, for longer than the idle time-out")
 		close(backend.release)
 		nd.Quiesce()
 		nd.Cover("half-close-then-finish")
